@@ -1304,7 +1304,8 @@ def condition_holds(lib, entry):
                     gs = [F.norm_path(x.get('path')) for x in t['func'].get('gargs', []) if x.get('k') == 'adt']
                     if want not in gs:
                         return False
-        return n >= 1
+        # no instantiation at all (the only caller is compiled out with a feature): the function is dead code here
+        return True
     return False
 
 
@@ -1534,6 +1535,7 @@ def run_(ctx, res):
                 verdicts['discharged'] += 1
         res.extra['sites_%s' % cfg] = dict(total=len(inv), **verdicts)
         res.extra['contexts_%s' % cfg] = n_ctx
-        if len(inv) < 120:
-            raise KeyError("only %d obligation sites found in the MIR inventory (expected about 165)" % len(inv))
+        floor = 120 if cfg == 'default' else 60       # history alone accounts for about 40 of the sites
+        if len(inv) < floor:
+            raise KeyError("only %d obligation sites found in the MIR inventory of %s (counted by hand: 165 with all features)" % (len(inv), cfg))
     res.exhaustive = True
